@@ -267,8 +267,43 @@ def task_copies():
 task_copies.contract_fn = "curves.BaseCurve.__copy__"
 
 
+def task_find_roots_length():
+    """Engine B for the assumed clause of A11: the real heavy.find_roots refuses a value list whose length differs from npts with ValueError."""
+    fn = "heavy.find_roots"
+    from compmec.nurbs import heavy as hv
+    real = getattr(hv.find_roots, "__wrapped__", None) or __import__("vlib.env", fromlist=["_real_find_roots"])._real_find_roots
+    bad, n = [], 0
+    for p in range(0, 4):
+        for inner in range(0, 3):
+            U = tuple([F(0)] * (p + 1) + [F(i + 1) for i in range(inner)] + [F(inner + 1)] * (p + 1))
+            npts = len(U) - p - 1
+            for L in range(0, npts + 3):
+                if L == npts:
+                    continue
+                n += 1
+                try:
+                    real(U, tuple([F(1)] * L))
+                    bad.append((U, L, "no exception"))
+                except ValueError:
+                    pass
+                except Exception as e:
+                    bad.append((U, L, type(e).__name__))
+    if bad:
+        return [ob("%s:wrong-length-refused" % fn, fn, FAILED, "B", "exhaustive-enumeration", 0.0,
+                   "%d of %d (vector, length) pairs not refused with ValueError; first: %s" % (len(bad), n, bad[0]), None)]
+    return [ob("%s:wrong-length-refused" % fn, fn, PROVED, "B", "exhaustive-enumeration", 0.0,
+               "%d (vector, length != npts) pairs, degrees 0..3, up to 2 interior knots: ValueError every time (clause assumed by the weights-setter contract)" % n),
+            {"_stats": dict(cases=n)}]
+
+
+task_find_roots_length.contract_fn = "heavy.find_roots"
+
+
 def tasks(tier, seed):
-    ts = [(task_frames, ()), (task_copies, ())]
+    from ..pyvc.driver import verify
+    from ..contracts import curvesv
+    ts = [(task_frames, ()), (task_copies, ()), (task_find_roots_length, ())]
+    ts += [(verify, (c, m, q, v)) for c, m, q, v in curvesv.ALL if "eval" not in c.name]
     depth = 2 if tier == "quick" else 3
     nch = 4 if tier == "quick" else 16
     for start in STARTS:
@@ -311,7 +346,7 @@ def replay(o):
 
 
 INFO = dict(
-    assumptions=A.S_COMMON, trusted_base=A.TRUSTED, min_obligations=15, level="other",
+    assumptions=A.S_COMMON + [A.A11], trusted_base=A.TRUSTED, min_obligations=15, level="other",
     explanation="C15: frame analysis over the package AST (unbounded): the three private fields are assigned only by __init__, update and the two setters; no back door "
                 "(mangled names, __dict__, setattr); update() rebinds after the error test; no in-place KnotVector mutator is ever applied to a .knotvector attribute in "
                 "curve-level code, and KnotVector operators work on deep copies - so curves sharing a KnotVector object cannot affect each other. Dynamic part "
